@@ -2573,13 +2573,18 @@ func genGlobalVarDecl(nodes []*node, sc *scope) (*node, error) {
 		deps[n] = getVarDependencies(n, sc)
 	}
 
-	inited := map[*node]bool{}
+	// A variable waits only for the variables which are initialized here: the ones
+	// defined by a previous evaluation are already initialized.
+	pending := map[*node]bool{}
+	for _, n := range nodes {
+		pending[n] = true
+	}
 	revisit := []*node{}
 	for {
 		for i, n := range nodes {
 			canInit := true
 			for _, d := range deps[n] {
-				if !inited[d] {
+				if pending[d] {
 					canInit = false
 				}
 			}
@@ -2589,7 +2594,7 @@ func genGlobalVarDecl(nodes []*node, sc *scope) (*node, error) {
 			}
 
 			varNode.child = append(varNode.child, n)
-			inited[n] = true
+			delete(pending, n)
 
 			// The Go spec initializes repeatedly the earliest variable in declaration
 			// order that is ready: rescan the remaining variables from the start.
